@@ -100,6 +100,18 @@ fn main() {
                     Some(c) => println!("{}", serde_json::to_string(&c).unwrap()),
                     None => std::process::exit(3),
                 },
+                "twins:C10" | "twins:C11" | "twins:C16" | "twins:C17" => match rv::fuzz::twin_cases(&data) {
+                    Some(t) => println!(
+                        "{}",
+                        match &id[6..] {
+                            "C10" => serde_json::to_string(&t.c10).unwrap(),
+                            "C11" => serde_json::to_string(&t.c11).unwrap(),
+                            "C16" => serde_json::to_string(&t.c16).unwrap(),
+                            _ => serde_json::to_string(&t.c17).unwrap(),
+                        }
+                    ),
+                    None => std::process::exit(3),
+                },
                 "kernel" => match rv::fuzz::kernel_case(&data) {
                     Some(c) => println!("{}", serde_json::to_string(&rv::props::c15::Case::Kernel(c)).unwrap()),
                     None => std::process::exit(3),
